@@ -168,7 +168,7 @@ class Gen:
         elif self.heredocs and self.r.random() < 0.015:
             # a here-document inside the substitution (read by _parse_comsub)
             d = self.r.choice(['E', 'EOF'])
-            s += ' ' + self.r.choice(['<<', '<<-', '<< ']) + d + '\n' + self.r.choice(['x\n', '\ty\n', '']) + self.r.choice(['', '\t']) + d + '\n'
+            s += ' ' + self.r.choice(['<<', '<<-', '<< ']) + d + '\n' + self.r.choice(['x\n', '\ty\n', '', ')\n', "'\n", '(\n', 'case\n', '`\n']) + self.r.choice(['', '\t']) + d + '\n'
         if self.r.random() < 0.1: s = ' ' + s
         if self.r.random() < 0.05: s = s + ' '
         return s
@@ -247,6 +247,7 @@ class Gen:
         body = self.compound(depth) if self.r.random() < 0.3 else '{' + self.sp() + self.clist(d, needterm=True) + '}'
         y = self.r.random()
         fn = self.r.choice(['f', 'g', 'fn_1', 'a', 'b', 'c', 'foo'])
+        if self.r.random() < 0.1: fn = self.r.choice(['$f', '${f}x', 'f$1', '~u', 'f"g"', "f'g'", 'f\\g', '$(f)', 'f.g', 'f-g', '1f', 'f=g'])       # odd names (expansions are not performed on them)
         if y < 0.4: return fn + self.osp() + '()' + self.r.choice([' ', '\n', '']) + body
         if y < 0.7: return 'function' + self.sp() + fn + self.r.choice([' ', '\n']) + body
         return 'function' + self.sp() + fn + self.osp() + '()' + self.r.choice([' ', '\n']) + body
